@@ -36,55 +36,128 @@ def toBytes (v : Val) : Option Bytes :=
 
 end Val
 
-/-! ### strconv.ParseFloat(s, 64) acceptance (decimal syntax, inf/nan, overflow ⇒ error) -/
+/-! ### strconv.ParseFloat(s, 64) acceptance
+
+`special` (inf / infinity / nan), then `readFloat`: optional sign, optional `0x` prefix (only when something
+follows it), digits with at most one `.`, `_` anywhere among them (validated afterwards by `underscoreOK`), an
+exponent (`e` for decimal, mandatory `p` for hexadecimal) whose digits are accumulated only while the value is below
+10000, the whole string consumed; finally the range check: the correctly rounded value must be finite. The mantissa
+is kept exactly here (Go truncates it to 19 / 16 digits with a sticky flag and still rounds correctly). -/
 
 def lowerB (c : UInt8) : UInt8 := if 65 ≤ c && c ≤ 90 then c + 32 else c
 
-def eqFold (s : Bytes) (t : String) : Bool := s.map lowerB == strBytes t
+/-- case-insensitive comparison with a lower-case word given as bytes -/
+def eqFold (s t : Bytes) : Bool := s.map lowerB == t
 
-/-- threshold at and above which a decimal rounds to +Inf: 2^1024 − 2^970 -/
+def wInf : Bytes := [105, 110, 102]                                -- "inf"
+def wInfinity : Bytes := [105, 110, 102, 105, 110, 105, 116, 121]  -- "infinity"
+def wNan : Bytes := [110, 97, 110]                                 -- "nan"
+
+/-- threshold at and above which a number rounds to +Inf: 2^1024 − 2^970 -/
 def floatOverflowT : Nat := 2^1024 - 2^970
 
-/-- scan digits; returns (mantissa, number of digits read, rest) -/
-def scanDigits : Bytes → Nat → Nat → Nat × Nat × Bytes
-  | [], m, n => (m, n, [])
-  | c :: cs, m, n => if isDigit c then scanDigits cs (m * 10 + digitVal c) (n + 1) else (m, n, c :: cs)
-
-/-- does `mant × 10^e` overflow float64? -/
-def decOverflows (mant : Nat) (e : Int) : Bool :=
+/-- does `mant × base^e` round to infinity? (`base` = 10 or 2) -/
+def overflows (base mant : Nat) (e : Int) : Bool :=
   if mant = 0 then false
-  else if e > 400 then true
-  else if e < -1200 then false
-  else if e ≥ 0 then mant * 10 ^ e.toNat ≥ floatOverflowT
-  else mant ≥ floatOverflowT * 10 ^ (-e).toNat
+  else if e ≥ 0 then (if e > 1100 then true else mant * base ^ e.toNat ≥ floatOverflowT)
+  else mant ≥ floatOverflowT * base ^ (-e).toNat
 
-def floatOK (s : Bytes) : Bool :=
-  let body := match s with
-    | c :: cs => if c = 43 || c = 45 then cs else s
+def isHexLetter (c : UInt8) : Bool := 97 ≤ lowerB c && lowerB c ≤ 102
+
+structure RF where
+  mant : Nat := 0        -- every mantissa digit, exactly
+  frac : Nat := 0        -- number of digits after the point
+  sawDigits : Bool := false
+  sawDot : Bool := false
+  us : Bool := false     -- an underscore was skipped
+
+/-- the mantissa loop of `readFloat`; returns the state and the unread rest -/
+def mantLoop (hex : Bool) : Bytes → RF → RF × Bytes
+  | [], st => (st, [])
+  | c :: cs, st =>
+    if c = 95 then mantLoop hex cs { st with us := true }
+    else if c = 46 then (if st.sawDot then (st, c :: cs) else mantLoop hex cs { st with sawDot := true })
+    else if isDigit c then
+      mantLoop hex cs { st with sawDigits := true, mant := st.mant * (if hex then 16 else 10) + digitVal c,
+                                frac := if st.sawDot then st.frac + 1 else st.frac }
+    else if hex && isHexLetter c then
+      mantLoop hex cs { st with sawDigits := true, mant := st.mant * 16 + ((lowerB c).toNat - 87),
+                                frac := if st.sawDot then st.frac + 1 else st.frac }
+    else (st, c :: cs)
+
+/-- exponent digits (and underscores); the value stops growing at 10000 -/
+def expLoop : Bytes → Nat → Bool → Nat × Bool × Bytes
+  | [], e, us => (e, us, [])
+  | c :: cs, e, us =>
+    if isDigit c then expLoop cs (if e < 10000 then e * 10 + digitVal c else e) us
+    else if c = 95 then expLoop cs e true
+    else (e, us, c :: cs)
+
+/-- `underscoreOK`: underscores only between digits (a base prefix counts as a digit). `saw`: 0 = start,
+    1 = digit or prefix, 2 = underscore, 3 = anything else -/
+def usLoop (hex : Bool) : Bytes → Nat → Bool
+  | [], saw => saw != 2
+  | c :: cs, saw =>
+    if isDigit c || (hex && isHexLetter c) then usLoop hex cs 1
+    else if c = 95 then (if saw != 1 then false else usLoop hex cs 2)
+    else if saw = 2 then false
+    else usLoop hex cs 3
+
+def underscoreOK (s : Bytes) : Bool :=
+  let s := match s with
+    | c :: cs => if c = 45 || c = 43 then cs else s
     | [] => []
-  let signed := body.length < s.length
-  if eqFold body "inf" || eqFold body "infinity" then true
-  else if !signed && eqFold s "nan" then true
-  else
-    let (m1, n1, r1) := scanDigits body 0 0
-    let (m2, n2, r2) := match r1 with
-      | c :: cs => if c = 46 then scanDigits cs m1 0 else (m1, 0, r1)
-      | [] => (m1, 0, [])
-    if n1 + n2 = 0 then false
-    else
-      match r2 with
-      | [] => !decOverflows m2 (-(n2 : Int))
-      | c :: cs =>
-        if c = 101 || c = 69 then
-          let (neg, ds) := match cs with
-            | d :: ds => if d = 43 then (false, ds) else if d = 45 then (true, ds) else (false, cs)
-            | [] => (false, [])
-          let (ev, en, r3) := scanDigits ds 0 0
-          if en = 0 || !r3.isEmpty then false
+  match s with
+  | 48 :: p :: rest =>
+    if lowerB p = 98 || lowerB p = 111 || lowerB p = 120 then usLoop (lowerB p = 120) rest 1
+    else usLoop false s 0
+  | _ => usLoop false s 0
+
+def stripSign (s : Bytes) : Bytes :=
+  match s with
+  | c :: cs => if c = 43 || c = 45 then cs else s
+  | [] => []
+
+/-- a `0x` / `0X` prefix counts only when something follows it -/
+def isHexPrefix : Bytes → Bool
+  | 48 :: x :: _ :: _ => lowerB x = 120
+  | _ => false
+
+/-- after the mantissa: the exponent, the end of the string, the underscore rule, the range -/
+def floatTail (hex : Bool) (s : Bytes) (st : RF) (r : Bytes) : Bool :=
+  let base := if hex then 2 else 10
+  let scale : Int := if hex then 4 * (st.frac : Int) else st.frac
+  match r with
+  | [] => if hex then false else if st.us && !underscoreOK s then false else !overflows base st.mant (-scale)
+  | c :: cs =>
+    if lowerB c = (if hex then 112 else 101) then
+      let (neg, ds) := match cs with
+        | d :: ds => if d = 43 then (false, ds) else if d = 45 then (true, ds) else (false, cs)
+        | [] => (false, [])
+      match ds with
+      | [] => false
+      | d0 :: _ =>
+        if !isDigit d0 then false
+        else
+          let (ev, us, r3) := expLoop ds 0 st.us
+          if !r3.isEmpty then false
+          else if us && !underscoreOK s then false
           else
             let e : Int := if neg then -(ev : Int) else ev
-            !decOverflows m2 (e - n2)
-        else false
+            !overflows base st.mant (e - scale)
+    else false
+
+def floatNum (s body : Bytes) : Bool :=
+  let hex := isHexPrefix body
+  let p := mantLoop hex (if hex then body.drop 2 else body) {}
+  if !p.1.sawDigits then false else floatTail hex s p.1 p.2
+
+def floatOK (s : Bytes) : Bool :=
+  let body := stripSign s
+  let signed := body.length < s.length
+  if eqFold body wInf || eqFold body wInfinity then true
+  else if !signed && eqFold s wNan then true
+  else floatNum s body
 
 /-! ### time.Parse("20060102-15:04:05.000", s) acceptance and canonical re-rendering -/
 
@@ -111,37 +184,57 @@ def expectByte (b : UInt8) : Bytes → Option Bytes
   | c :: cs => if c = b then some cs else none
   | [] => none
 
+/-- a range check of the parser: failing it fails the parse -/
+def check (b : Bool) : Option Unit := if b then some () else none
+
+/-- four-digit year -/
+def getYear : Bytes → Option (Nat × Bytes)
+  | a :: b :: c :: d :: rest =>
+    if isDigit a && isDigit b && isDigit c && isDigit d
+    then some (digitVal a * 1000 + digitVal b * 100 + digitVal c * 10 + digitVal d, rest) else none
+  | _ => none
+
+/-- the fractional second: `.` or `,` and three digits; the parser also lets a `+` stand for the first digit
+    (Go's `atoi` of the fraction accepts a sign) -/
+def getMillis : Bytes → Option Nat
+  | [p, a, b, c] =>
+    if p = 46 || p = 44 then
+      (if isDigit a && isDigit b && isDigit c then some (digitVal a * 100 + digitVal b * 10 + digitVal c)
+       else if a = 43 && isDigit b && isDigit c then some (digitVal b * 10 + digitVal c)
+       else none)
+    else none
+  | _ => none
+
 /-- canonical text of a successfully parsed time, `none` if `time.Parse` fails -/
 def timeCanon (s : Bytes) : Option Bytes := do
-  let (y, s) ← match s with
-    | a :: b :: c :: d :: rest =>
-      if isDigit a && isDigit b && isDigit c && isDigit d
-      then some (digitVal a * 1000 + digitVal b * 100 + digitVal c * 10 + digitVal d, rest) else none
-    | _ => none
+  let (y, s) ← getYear s
   let (mo, s) ← getnum2 s
-  if mo = 0 || mo > 12 then none
+  check (!(mo = 0 || mo > 12))
   let (d, s) ← getnum2 s
   let s ← expectByte 45 s
   let (h, s) ← getnum12 s
-  if h ≥ 24 then none
+  check (h < 24)
   let s ← expectByte 58 s
   let (mi, s) ← getnum2 s
-  if mi ≥ 60 then none
+  check (mi < 60)
   let s ← expectByte 58 s
   let (sec, s) ← getnum2 s
-  if sec ≥ 60 then none
-  let ms ← match s with
-    | [p, a, b, c] =>
-      if p = 46 || p = 44 then
-        (if isDigit a && isDigit b && isDigit c then some (digitVal a * 100 + digitVal b * 10 + digitVal c)
-         else if a = 43 && isDigit b && isDigit c then some (digitVal b * 10 + digitVal c)
-         else none)
-      else none
-    | _ => none
-  if d < 1 || d > daysIn mo y then none
+  check (sec < 60)
+  let ms ← getMillis s
+  check (1 ≤ d && d ≤ daysIn mo y)
   some ([digitChar (y / 1000), digitChar (y / 100 % 10), digitChar (y / 10 % 10), digitChar (y % 10)]
     ++ twoDigits mo ++ twoDigits d ++ [45] ++ twoDigits h ++ [58] ++ twoDigits mi ++ [58] ++ twoDigits sec
     ++ [46, digitChar (ms / 100), digitChar (ms / 10 % 10), digitChar (ms % 10)])
+
+def fourDigits (y : Nat) : Bytes :=
+  [digitChar (y / 1000), digitChar (y / 100 % 10), digitChar (y / 10 % 10), digitChar (y % 10)]
+
+def threeDigits (n : Nat) : Bytes := [digitChar (n / 100), digitChar (n / 10 % 10), digitChar (n % 10)]
+
+/-- `t.Format("20060102-15:04:05.000")` for year `y`, month `mo`, … millisecond `ms` -/
+def timeFmt (y mo d h mi s ms : Nat) : Bytes :=
+  fourDigits y ++ twoDigits mo ++ twoDigits d ++ [45] ++ twoDigits h ++ [58] ++ twoDigits mi ++ [58]
+    ++ twoDigits s ++ [46] ++ threeDigits ms
 
 /-! ### FromBytes -/
 
